@@ -718,3 +718,81 @@ func TestVerifReplay(t *testing.T) {
 `
 	return "ds", ".", src, true
 }
+
+// ---------- C10 ----------
+func init() { replayGens["c10"] = replayC10 }
+
+func replayC10(o *Obligation) (string, string, string, bool) {
+	if !strings.HasPrefix(o.Name, "ds.list.") && !strings.HasPrefix(o.Name, "ds.listElement.") && !strings.HasPrefix(o.Name, "ds.threadSafeList.") {
+		return "", "", "", false
+	}
+	src := `package ds
+
+import (
+	stdlist "container/list"
+	"fmt"
+	"testing"
+)
+
+// oracle: Go's container/list. All operation sequences of length <= 3 over 4 handles (3 live + 1 foreign),
+// both flavours.
+func TestVerifReplay(t *testing.T) {
+	type opf struct {
+		name string
+		ours func(l List[int], hs []ListElement[int], a, b int)
+		std  func(l *stdlist.List, hs []*stdlist.Element, a, b int)
+	}
+	ops := []opf{
+		{"MoveBefore", func(l List[int], hs []ListElement[int], a, b int) { l.MoveBefore(hs[a], hs[b]) }, func(l *stdlist.List, hs []*stdlist.Element, a, b int) { l.MoveBefore(hs[a], hs[b]) }},
+		{"MoveAfter", func(l List[int], hs []ListElement[int], a, b int) { l.MoveAfter(hs[a], hs[b]) }, func(l *stdlist.List, hs []*stdlist.Element, a, b int) { l.MoveAfter(hs[a], hs[b]) }},
+		{"MoveToFront", func(l List[int], hs []ListElement[int], a, b int) { l.MoveToFront(hs[a]) }, func(l *stdlist.List, hs []*stdlist.Element, a, b int) { l.MoveToFront(hs[a]) }},
+		{"MoveToBack", func(l List[int], hs []ListElement[int], a, b int) { l.MoveToBack(hs[a]) }, func(l *stdlist.List, hs []*stdlist.Element, a, b int) { l.MoveToBack(hs[a]) }},
+		{"Remove", func(l List[int], hs []ListElement[int], a, b int) { l.Remove(hs[a]) }, func(l *stdlist.List, hs []*stdlist.Element, a, b int) { l.Remove(hs[a]) }},
+		{"InsertBefore", func(l List[int], hs []ListElement[int], a, b int) { l.InsertBefore(100+a, hs[b]) }, func(l *stdlist.List, hs []*stdlist.Element, a, b int) { l.InsertBefore(100+a, hs[b]) }},
+		{"InsertAfter", func(l List[int], hs []ListElement[int], a, b int) { l.InsertAfter(200+a, hs[b]) }, func(l *stdlist.List, hs []*stdlist.Element, a, b int) { l.InsertAfter(200+a, hs[b]) }},
+	}
+	for _, threadSafe := range []bool{false, true} {
+		var seqs [][][3]int
+		for i := range ops {
+			for a := 0; a < 4; a++ {
+				for b := 0; b < 4; b++ {
+					seqs = append(seqs, [][3]int{{i, a, b}})
+					for j := range ops {
+						seqs = append(seqs, [][3]int{{i, a, b}, {j, (a + 1) % 4, (b + 2) % 4}})
+					}
+				}
+			}
+		}
+		for _, seq := range seqs {
+			ours, other := NewList[int](threadSafe), NewList[int](threadSafe)
+			std, stdOther := stdlist.New(), stdlist.New()
+			var hs []ListElement[int]
+			var shs []*stdlist.Element
+			for v := 1; v <= 3; v++ {
+				hs = append(hs, ours.PushBack(v))
+				shs = append(shs, std.PushBack(v))
+			}
+			hs = append(hs, other.PushBack(9)) // a handle of another list
+			shs = append(shs, stdOther.PushBack(9))
+			desc := ""
+			for _, st := range seq {
+				ops[st[0]].ours(ours, hs, st[1], st[2])
+				ops[st[0]].std(std, shs, st[1], st[2])
+				desc += fmt.Sprintf("%s(h%d,h%d) ", ops[st[0]].name, st[1], st[2])
+			}
+			var got, want []int
+			for e := ours.Front(); e != nil; e = e.Next() {
+				got = append(got, e.Value())
+			}
+			for e := std.Front(); e != nil; e = e.Next() {
+				want = append(want, e.Value.(int))
+			}
+			if fmt.Sprint(got) != fmt.Sprint(want) || ours.Len() != std.Len() {
+				t.Fatalf("REPLAY-VIOLATION ds.List (threadSafe=%v) after PushBack 1,2,3; %s: order %v len %d, container/list gives %v len %d", threadSafe, desc, got, ours.Len(), want, std.Len())
+			}
+		}
+	}
+}
+`
+	return "ds", ".", src, true
+}
